@@ -5,6 +5,7 @@ import Monorail.Driver.C11
 import Monorail.Driver.Exec
 import Monorail.Driver.Store
 import Monorail.Driver.Log
+import Monorail.Driver.Git
 open Lean Monorail.Driver
 
 def dispatch (j : Json) : Except String Json := do
@@ -17,6 +18,7 @@ def dispatch (j : Json) : Except String Json := do
   | "exec" => handleExec j
   | "store" => handleStore j
   | "reader" => handleReader j
+  | "git" => handleGit j
   | "execcheck" => handleExecCheck j
   | "groups" => handleGroups j
   | "ping" => pure (Json.mkObj [("pong", true)])
